@@ -224,3 +224,40 @@ V("c11-asphericity-volume", "fault", "C11", P + "convex_polyhedron.py", "return 
 V("c11-signed-area-sign", "fault", "C11", P + "convex_spheropolygon.py", "            return poly_area - sphero_area\n", "            return poly_area + sphero_area\n", rule="ST-4")
 V("c11-cap-area", "fault", "C11", P + "convex_spheropolygon.py", "cap_area = np.pi * self.radius * self.radius", "cap_area = 2 * np.pi * self.radius * self.radius", rule="ST-1")
 V("c11-rw-loop-variable", "rewrite", "C11", P + "convex_polyhedron.py", "            unnorm_r += edge_length * (np.pi - phi)", "            unnorm_r += (np.pi - phi) * edge_length")
+
+# ------------------------------------------------------------------------------------------ C05 / C06
+V("c05-drop-axis", "fault", "C05", P + "convex_polyhedron.py",
+  "return np.all(self._point_plane_distances(points) <= 0, axis=1)", "return np.all(self._point_plane_distances(points) <= 0)", rule="IN-2")
+V("c05-no-atleast2d", "fault", "C05", P + "sphere.py",
+  "        points = np.atleast_2d(points) - self.centroid\n        return np.linalg.norm(points, axis=-1) <= self.radius",
+  "        points = points - self.centroid\n        return np.linalg.norm(points, axis=-1) <= self.radius", rule="IN-1")
+V("c05-plane-distances-no-atleast2d", "fault", "C05", P + "polyhedron.py",
+  "        points = np.atleast_2d(points)\n        dots = np.inner(points, self._equations[:, :3])", "        dots = np.inner(points, self._equations[:, :3])", rule="IN-1")
+V("c05-sphere-forgets-centre", "fault", "C05", P + "sphere.py",
+  "        points = np.atleast_2d(points) - self.centroid\n        return np.linalg.norm(points, axis=-1) <= self.radius",
+  "        points = np.atleast_2d(points)\n        return np.linalg.norm(points, axis=-1) <= self.radius", rule="IN-3")
+V("c05-ellipsoid-two-axes", "fault", "C05", P + "ellipsoid.py",
+  "scale = np.array([self.a, self.b, self.c])", "scale = np.array([self.a, self.b, self.b])", rule="IN-3")
+V("c05-ellipsoid-box", "fault", "C05", P + "ellipsoid.py",
+  "return np.linalg.norm(points / scale, axis=-1) <= 1", "return np.all(np.abs(points / scale) <= 1, axis=-1)", rule="IN-4")
+V("c05-sphero-no-caps", "fault", "C05", P + "convex_spheropolyhedron.py",
+  "            in_caps = np.any(cap_distances <= self.radius)\n            return in_caps", "            return False", rule="IN-5")
+V("c05-sorts-points", "fault", "C05", P + "ellipsoid.py",
+  "points = np.atleast_2d(points) - self.centroid\n        scale = np.array([self.a", "points = np.sort(np.atleast_2d(points) - self.centroid, axis=0)\n        scale = np.array([self.a", rule="IN-2")
+V("c05-sphero-early-exit-all", "fault", "C05", P + "convex_spheropolyhedron.py",
+  "        if np.all(in_polyhedron):\n            return in_polyhedron", "        if np.any(in_polyhedron):\n            return np.any(in_polyhedron)", rule="IN-2")
+V("c05-rw-axis-keyword", "rewrite", "C05", P + "convex_polyhedron.py",
+  "return np.all(self._point_plane_distances(points) <= 0, axis=1)", "dist = self._point_plane_distances(points)\n        return (dist <= 0).all(axis=-1)")
+V("c06-polygon-no-pad", "fault", "C06", P + "polygon.py",
+  "        if points.shape[1] == 2:\n            points = np.hstack((points, np.zeros((points.shape[0], 1))))\n", "", rule="IN-6")
+V("c06-polygon-winding-positive", "fault", "C06", P + "polygon.py",
+  "        winding_number = np.sum(half_turn, axis=0) // 2  # Sum along the first axis\n\n        return winding_number != 0",
+  "        winding_number = np.sum(half_turn, axis=0) // 2  # Sum along the first axis\n\n        return winding_number > 0", rule="IN-6")
+V("c06-circle-box", "fault", "C06", P + "circle.py",
+  "np.linalg.norm(points, axis=-1) <= self.radius", "np.all(np.abs(points) <= self.radius, axis=-1)", rule="IN-4")
+V("c06-circle-forgets-radius", "fault", "C06", P + "circle.py",
+  "np.linalg.norm(points, axis=-1) <= self.radius", "np.linalg.norm(points, axis=-1) <= 1", rule="IN-3")
+V("c06-polygon-sum-no-axis", "fault", "C06", P + "polygon.py",
+  "winding_number = np.sum(half_turn, axis=0) // 2", "winding_number = np.sum(half_turn) // 2", rule="IN-2")
+V("c06-rw-norm-form", "rewrite", "C06", P + "circle.py",
+  "np.linalg.norm(points, axis=-1) <= self.radius", "np.linalg.norm(points, axis=1) <= self.radius")
